@@ -1,5 +1,7 @@
 import copy
 
+from bardolph.lib.param_helper import param_16
+
 
 class Rect:
     def __init__(self, top=0, bottom=0, left=0, right=0):
@@ -123,13 +125,7 @@ class ColorMatrix:
             return None
         raw_color = []
         for param in color:
-            if param < 0.0:
-                param = 0
-            elif param > 65535.0:
-                param = 65535
-            else:
-                param = round(param)
-            raw_color.append(param)
+            raw_color.append(param_16(param))
         return raw_color
 
     def _clip_rect(self, rect) -> None:
